@@ -10,6 +10,7 @@ import XzVerif.Model.Writer2
 import XzVerif.Model.Ring
 import XzVerif.Model.Writer1
 import XzVerif.Model.XzWriter
+import XzVerif.Model.Select
 /-
   driver — line protocol around the executable definitions of Spec and Model.
   One request per line on stdin, one reply line on stdout.  Core-only, so it links.
@@ -185,6 +186,14 @@ def ringDDictCmd (d : Ring.DDict) (cmd : String) : Ring.DDict × String :=
   | ["st"] => (d, s!"{d.head},{d.dictLen},{d.buf.available},{d.buf.buffered}")
   | _ => (d, "bad-op")
 
+def natList (s : String) : Option (List Nat) :=
+  if s = "-" then some [] else (s.splitOn ",").mapM String.toNat?
+
+def selRes : Sel.Res → String
+  | .panic => "panic"
+  | .op (.lit b) => s!"L{b}"
+  | .op (.mtch d n) => s!"M{d},{n}"
+
 def ringEDictCmd (d : Ring.EDict) (cmd : String) : Ring.EDict × String :=
   match cmd.splitOn ":" with
   | ["w", h] => let (d', n, e) := d.write (unhex h); (d', s!"{n},{b01 e}")
@@ -203,6 +212,12 @@ def ringEDictCmd (d : Ring.EDict) (cmd : String) : Ring.EDict × String :=
     | some dist, some n => (d, toString (d.buf.matchLen dist (d.buf.peek n)))
     | _, _ => (d, "bad-op")
   | ["st"] => (d, s!"{d.head},{d.len},{d.dictLen},{d.available},{d.buffered}")
+  | ["nxh", rep0, cands] => match rep0.toNat?, natList cands with
+    | some rep0, some cands => (d, selRes (Sel.nextOpHT d cands rep0))
+    | _, _ => (d, "bad-op")
+  | ["nxb", rep0, sp, a, b] => match rep0.toNat?, natList a, natList b with
+    | some rep0, some a, some b => (d, selRes (Sel.nextOpBT d (sp = "1") a b rep0))
+    | _, _, _ => (d, "bad-op")
   | _ => (d, "bad-op")
 
 def runScript {α : Type} (f : α → String → α × String) : α → List String → List String
